@@ -325,6 +325,7 @@ func runC15(c *Check) {
 		}
 		c.Req(n == 2, "internal/dcs", "-", "versioned:sites", "versioned write and delete found", fmt.Sprintf("%d", n))
 	})
+	extraC15(c)
 }
 
 // mustMap: from every edge carrying `on`, all reachable returns of fn have description `want`.
